@@ -2,6 +2,7 @@
 //! usage: mc check <ID> <quick|thorough> | mc replay <path>
 
 mod checks;
+mod hclient;
 mod hserver;
 mod refmodel;
 mod report;
@@ -17,8 +18,7 @@ fn main() {
     // a panic in the code under test is caught per poll; keep the default hook quiet
     std::panic::set_hook(Box::new(|_| {}));
     let args: Vec<String> = std::env::args().collect();
-    let rt = sim::runtime();
-    let _g = rt.enter();
+    sim::enter_thread_runtime();
     let code = match args.get(1).map(|x| x.as_str()) {
         Some("check") if args.len() >= 4 => {
             let tier = args[3].as_str();
